@@ -90,7 +90,17 @@ def Z17(n=3, buf=1, mx=2):     # issue #81 architecture: a source feeds a proces
                 procs=[src("s", items(n)), cmd("a", ["in"]), cmd("j", ["l", "r"])],
                 edges=[E("s.out", "a.in"), E("a.out", "j.l"), E("s.out", "j.r")])
 
-ZOO = dict(Z17=Z17, Z1=Z1, Z2=Z2, Z3=Z3, Z4=Z4, Z5=Z5, Z6=Z6, Z7=Z7, Z8=Z8, Z9=Z9, Z10=Z10, Z13=Z13, Z14=Z14,
+def Z18(n=3, buf=1, mx=2):     # one upstream feeds the leaf driver AND a branch that ends in the sink
+    return dict(name="Z18", max=mx, bufsize=buf,
+                procs=[src("s", items(n)), cmd("mk", ["in"]), cmd("chk", ["x"], []), cmd("cp", ["x"])],
+                edges=[E("s.out", "mk.in"), E("mk.out", "chk.x"), E("mk.out", "cp.x")])
+
+def Z19(n=2, buf=1, mx=2):     # a parameter out-port nobody consumes beside a file out-port nobody consumes (both end in the sink)
+    return dict(name="Z19", max=mx, bufsize=buf,
+                procs=[src("s", items(n)), cmd("a", ["in"]), cmd("b", ["x"]), psrc("ps", ["k1", "k2", "k3"])],
+                edges=[E("s.out", "a.in"), E("a.out", "b.x")])
+
+ZOO = dict(Z17=Z17, Z18=Z18, Z19=Z19, Z1=Z1, Z2=Z2, Z3=Z3, Z4=Z4, Z5=Z5, Z6=Z6, Z7=Z7, Z8=Z8, Z9=Z9, Z10=Z10, Z13=Z13, Z14=Z14,
            Z15=Z15, Z16=Z16, Z5b=Z5b)
 
 # ----------------------------------------------------------------------------
